@@ -129,6 +129,26 @@ class C07(TracedProp):
 
     def judge(self, out, rec):
         found = super().judge(out, rec)
+        # the mask helper on a few other tuples of stacked lengths (incl. one series, series of one window)
+        import numpy as np
+        import fast_ticc.data_preparation as dp
+        r = core.rng(out.case["seed"], "C07", "helper")
+        for _ in range(3):
+            lens = [r.choice([1, 1, 2, 3, r.randint(1, 40)]) for _ in range(r.randint(1, 6))]
+            try:
+                tpl = np.asarray(dp.label_switching_cost_template(list(lens) if r.random() < 0.5 else tuple(lens)))
+            except Exception as e:  # noqa: BLE001
+                found.append(("C07:mask_helper_raises", f"mask helper raises {type(e).__name__} for stacked lengths {lens}: {e}"))
+                break
+            want = np.ones(sum(lens))
+            ends = np.cumsum(lens)[:-1]
+            want[[int(e) - 1 for e in ends]] = 0
+            rec.probe("mask_helper_direct_calls")
+            if tpl.shape != want.shape or not np.array_equal(tpl, want):
+                found.append(("C07:mask_position", f"mask for stacked lengths {lens} has zeros at "
+                                                   f"{[int(i) for i in np.nonzero(tpl == 0)[0]]}, boundary pairs are "
+                                                   f"{[int(e) - 1 for e in ends]}"))
+                break
         if len(out.case["data"]["lengths"]) == 1:
             # joint labelling of a single series must give the same result as the single-series front end
             from .. import runner
